@@ -11,9 +11,14 @@
 #include <stdlib.h>
 #include <string.h>
 #include <stdint.h>
+#include <limits.h>
 #include "cimba.h"
 
-int main(int argc, char **argv)
+static int sampler_main(int argc, char **argv);
+static int inproc_argc, inproc_rc; static char **inproc_argv;
+static void *inproc_body(struct cmb_process *me, void *ctx) { (void)me; (void)ctx; inproc_rc = sampler_main(inproc_argc, inproc_argv); return NULL; }
+int main(int argc, char **argv) { return sampler_main(argc, argv); }
+static int sampler_main(int argc, char **argv)
 {
     if (argc < 4) return 2;
     cmb_logger_flags_off(CMB_LOGGER_INFO | CMB_LOGGER_WARNING);
@@ -28,6 +33,12 @@ int main(int argc, char **argv)
     unsigned vn = np > 0 ? (unsigned)p[0] : 0;
     if (!strcmp(s, "alias")) al = cmb_random_alias_create(vn, p + 1);
     size_t done = 0;
+    /* "proc:<sampler>": the same, drawn by a simulated process (invalid and divide-by-zero exceptions unmasked: a 0/0 inside a sampler ends the program) */
+    if (!strncmp(s, "proc:", 5)) { inproc_argc = argc; inproc_argv = argv; argv[3] += 5;
+        cmb_event_queue_initialize(0.0);
+        struct cmb_process *pr = cmb_process_create(); cmb_process_initialize(pr, "sampler", inproc_body, NULL, 0); cmb_process_start(pr);
+        while (cmb_event_execute_next()) { }
+        return inproc_rc; }
     while (done < n) {
         size_t m = n - done < 4096 ? n - done : 4096;
         for (size_t k = 0; k < m; k++) {
@@ -67,6 +78,9 @@ int main(int argc, char **argv)
             else if (!strcmp(s, "pascal")) x = (double)cmb_random_pascal((unsigned)p[0], p[1]);
             else if (!strcmp(s, "poisson")) x = (double)cmb_random_poisson(p[0]);
             else if (!strcmp(s, "dice")) x = (double)cmb_random_dice((long)p[0], (long)p[1]);
+            /* dice on [base, base + width] for bases a double cannot carry: the offset from the base is reported (computed in integers) */
+            else if (!strcmp(s, "dice_at")) { static const long bases[] = { 1L << 53, LONG_MAX - 5, LONG_MIN, -(1L << 53) - 7, 1000000000000000L, (1L << 62) + 1 };
+                long b0 = bases[(int)p[0]], w = (long)p[1]; long r = cmb_random_dice(b0, b0 + w); x = (double)(long)((unsigned long)r - (unsigned long)b0); }
             else if (!strcmp(s, "loaded_dice")) x = (double)cmb_random_loaded_dice(vn, p + 1);
             else if (!strcmp(s, "alias")) x = (double)cmb_random_alias_sample(al);
             else { fprintf(stderr, "unknown sampler %s\n", s); return 2; }
